@@ -1,5 +1,5 @@
 import BqVerif.Proofs.C06Product
-import BqVerif.Proofs.C06Params
+import BqVerif.Proofs.C06Alias
 import BqVerif.Proofs.C06Iter
 /-!
 # C06 — circuit simulation equals the ordered product of its operations
@@ -252,20 +252,27 @@ theorem C06_get_param {c : Circ P α} (hwf : c.WF) (i : Nat) (hi : i < c.params.
     c.getParam (i : Int) = .ok (c.params[i]) :=
   getParam_eq hwf i hi
 
-/-- `set_param i v` overwrites entry `i` of the flat vector and nothing else. -/
-theorem C06_set_param {c : Circ P α} (hwf : c.WF) (i : Nat) (hi : i < c.params.length) (v : P) :
+/-- `set_param i v` overwrites entry `i` of the flat vector and nothing else.
+`_partial`: provided no `Operation` object occupies two grid entries (`OidsDistinct`);
+the model — like the code, which mutates the object in place — otherwise changes every
+alias (`C06_shared_operation_witness`). -/
+theorem C06_set_param_partial {c : Circ P α} (hwf : c.WF) (hd : c.OidsDistinct) (i : Nat)
+    (hi : i < c.params.length) (v : P) :
     ∃ c', c.setParam (i : Int) v = .ok c' ∧ c'.params = c.params.set i v ∧
       c'.radixes = c.radixes ∧ c'.numCycles = c.numCycles ∧
       c'.ops.map (fun e => (e.1, e.2.loc, e.2.numParams))
-        = c.ops.map (fun e => (e.1, e.2.loc, e.2.numParams)) ∧ c'.WF :=
-  setParam_params hwf i hi v
+        = c.ops.map (fun e => (e.1, e.2.loc, e.2.numParams)) ∧ c'.WF := by
+  rw [setParam_eq_val hd]
+  exact setParam_params hwf i hi v
 
-/-- `set_params p; params == p`, and `ValueError` exactly on a length mismatch. -/
-theorem C06_set_params_roundtrip (c : Circ P α) (ps : List P) :
-    (ps.length = c.numParams → ∃ c', c.setParams ps = .ok c' ∧ c'.params = ps ∧
-      c'.numParams = c.numParams) ∧
+/-- `set_params p; params == p` (`_partial`: under `OidsDistinct`), and `ValueError` exactly
+on a length mismatch (always). -/
+theorem C06_set_params_roundtrip_partial (c : Circ P α) (ps : List P) :
+    (c.OidsDistinct → ps.length = c.numParams →
+      ∃ c', c.setParams ps = .ok c' ∧ c'.params = ps ∧ c'.numParams = c.numParams) ∧
     (ps.length ≠ c.numParams → c.setParams ps = .error .valueError) := by
-  refine ⟨fun h => ?_, setParams_err c ps⟩
+  refine ⟨fun hd h => ?_, setParams_len_err c ps⟩
+  rw [setParams_eq_val hd]
   obtain ⟨c', h1, h2, h3, _⟩ := setParams_roundtrip c ps h
   exact ⟨c', h1, h2, h3⟩
 
@@ -279,21 +286,52 @@ theorem C06_freeze_param [Semiring α] (conj : α → α) {c : Circ P α} (hwf :
   exact ⟨c', h1, h2, h3, freezeParam_getUnitary conj hwf i hi gid c' h1⟩
 
 /-- **Passing parameters explicitly = storing them first**, for `get_unitary`,
-`get_statevector` and `get_unitary_and_grad` (results *and* errors coincide). -/
-theorem C06_explicit_params_eq_stored [Semiring α] (conj : α → α) {c : Circ P α} (hwf : c.WF)
-    (ps : List P) (hne : ps ≠ []) (c' : Circ P α) (h : c.setParams ps = .ok c') :
+`get_statevector` and `get_unitary_and_grad` (results *and* errors coincide).
+`_partial`: under `OidsDistinct` (see `C06_shared_operation_witness`). -/
+theorem C06_explicit_params_eq_stored_partial [Semiring α] (conj : α → α) {c : Circ P α}
+    (hwf : c.WF) (hd : c.OidsDistinct) (ps : List P) (hne : ps ≠ []) (c' : Circ P α)
+    (h : c.setParams ps = .ok c') :
     c'.getUnitary conj [] = c.getUnitary conj ps ∧
     (∀ v sr, c'.getStatevector conj v sr [] = c.getStatevector conj v sr ps) ∧
-    c'.getUnitaryAndGrad conj [] = c.getUnitaryAndGrad conj ps :=
-  ⟨explicit_eq_stored_unitary conj hwf ps hne c' h,
+    c'.getUnitaryAndGrad conj [] = c.getUnitaryAndGrad conj ps := by
+  rw [setParams_eq_val hd] at h
+  exact ⟨explicit_eq_stored_unitary conj hwf ps hne c' h,
    fun v sr => explicit_eq_stored_state conj hwf ps hne c' h v sr,
    explicit_eq_stored_grad conj hwf ps hne c' h⟩
 
+/-! ### the same `Operation` object in two grid entries -/
+
+/-- `op = Operation(G, [0], [1]); c.append(op); c.append(op)` (one object, `oid = 7`). -/
+def wShared : Circ Nat Int :=
+  let op : GOp Nat Int :=
+    { oid := 7, gid := 0, loc := [0], params := [1], numParams := 1, radixes := [2],
+      unitary := fun _ => identity 2, grad := fun _ => [] }
+  ⟨[2], 2, [(0, op), (1, op)]⟩
+
+def outParams (r : Except Err (Circ Nat Int)) : Option (List Nat) :=
+  match r with
+  | .ok c => some c.params
+  | .error _ => none
+
+/-- The full statements fail when an `Operation` object is shared: after
+`set_params([3, 4])` the flat vector is `[4, 4]`, and `set_param(0, 9)` also changes
+entry 1.  Replayed on the real code by `harness/c06.py:fixed_cases`. -/
+theorem C06_shared_operation_witness :
+    wShared.WF ∧ ¬ wShared.OidsDistinct ∧
+    outParams (wShared.setParams [3, 4]) = some [4, 4] ∧
+    outParams (wShared.setParam 0 9) = some [9, 9] := by
+  refine ⟨⟨?_, ?_⟩, by unfold Circ.OidsDistinct; decide, by decide, by decide⟩
+  · intro e he
+    simp only [wShared, List.mem_cons, List.not_mem_nil, or_false] at he
+    rcases he with rfl | rfl <;> decide
+  · simp only [wShared]
+    decide
+
 /-- non-vacuity: a well-formed circuit with parameters, and a successful `set_params`. -/
-def nvOp (loc : List Nat) (ps : List Nat) : GOp Nat Int :=
-  { gid := 0, loc := loc, params := ps, numParams := ps.length, radixes := loc.map (fun _ => 2),
+def nvOp (oid : Nat) (loc : List Nat) (ps : List Nat) : GOp Nat Int :=
+  { oid := oid, gid := 0, loc := loc, params := ps, numParams := ps.length, radixes := loc.map (fun _ => 2),
     unitary := fun _ => identity (2 ^ loc.length), grad := fun _ => [] }
-def nvCirc : Circ Nat Int := ⟨[2, 2, 2], 2, [(0, nvOp [2, 0] [7, 8]), (0, nvOp [1] []), (1, nvOp [1, 2] [9])]⟩
+def nvCirc : Circ Nat Int := ⟨[2, 2, 2], 2, [(0, nvOp 0 [2, 0] [7, 8]), (0, nvOp 1 [1] []), (1, nvOp 2 [1, 2] [9])]⟩
 
 private theorem nvCirc_wf : nvCirc.WF := by
   refine ⟨?_, ?_⟩
@@ -315,7 +353,7 @@ private theorem nvCirc_opsOK : nvCirc.OpsOK := by
 example : nvCirc.OpsOK ∧ ([1, 2, 3] : List Nat).length = nvCirc.numParams :=
   ⟨nvCirc_opsOK, by decide⟩
 
-def nvCircU : Circ Nat Int := ⟨[2, 2], 1, [(0, nvOp [1] [5])]⟩
+def nvCircU : Circ Nat Int := ⟨[2, 2], 1, [(0, nvOp 0 [1] [5])]⟩
 
 /-- ... and so is the gate-unitarity hypothesis of `C06_grad_loop_unitary_gates`. -/
 example : nvCircU.OpsOK ∧
@@ -334,6 +372,7 @@ example : nvCircU.OpsOK ∧
     congr 1
 
 example : nvCirc.WF := nvCirc_wf
+example : nvCirc.OidsDistinct := by unfold Circ.OidsDistinct; decide
 example : (none : Option (List Nat)).getD nvCirc.radixes = nvCirc.radixes ∧
     (some nvCirc.radixes).getD nvCirc.radixes = nvCirc.radixes := ⟨rfl, rfl⟩
 example : nvCirc.params = [7, 8, 9] := by decide
